@@ -276,14 +276,59 @@ func (s *Schema) GetAST() (an jschema.ASTNode, err error) {
 		return jschema.ASTNode{}, err
 	}
 
-	return s.astNode, nil
+	// The caller owns what it gets: a copy, so that decorating or pruning the
+	// tree cannot change what this (or a later) call returns.
+	return copyASTNode(s.astNode), nil
+}
+
+// copyASTNode returns a deep copy of the tree.
+func copyASTNode(n jschema.ASTNode) jschema.ASTNode {
+	n.Rules = copyRuleASTNodes(n.Rules)
+	if n.Children != nil {
+		cc := make([]jschema.ASTNode, len(n.Children))
+		for i, c := range n.Children {
+			cc[i] = copyASTNode(c)
+		}
+		n.Children = cc
+	}
+	return n
+}
+
+func copyRuleASTNodes(m *jschema.RuleASTNodes) *jschema.RuleASTNodes {
+	if m == nil {
+		return nil
+	}
+	if m.Len() == 0 {
+		return &jschema.RuleASTNodes{}
+	}
+	cp := jschema.MakeRuleASTNodes(m.Len())
+	_ = m.Each(func(k string, v jschema.RuleASTNode) error {
+		cp.Set(k, copyRuleASTNode(v))
+		return nil
+	})
+	return cp
+}
+
+func copyRuleASTNode(n jschema.RuleASTNode) jschema.RuleASTNode {
+	n.Properties = copyRuleASTNodes(n.Properties)
+	if n.Items != nil {
+		ii := make([]jschema.RuleASTNode, len(n.Items))
+		for i, it := range n.Items {
+			ii[i] = copyRuleASTNode(it)
+		}
+		n.Items = ii
+	}
+	return n
 }
 
 func (s *Schema) UsedUserTypes() ([]string, error) {
 	if err := s.load(); err != nil {
 		return nil, err
 	}
-	return s.usedUserTypes, nil
+	if s.usedUserTypes == nil {
+		return nil, nil
+	}
+	return append([]string{}, s.usedUserTypes...), nil
 }
 
 func (s *Schema) load() error {
